@@ -70,8 +70,9 @@ theorem sigmaSeparated_iff_MSep_acy {G : MG} {order : List Nat} (hd : Dom G) (hu
   · intro z hz; rw [acy_nodes]; exact hZ z hz
   · exact hXZ
 
-/-- **T8 (Forré–Mooij), taken as a hypothesis**: sigma-separation in G = m-separation in any
-    acyclification of G, for the inputs of the property. -/
+/-- **T8 (Forré–Mooij)** as a statement: sigma-separation in G = m-separation in any acyclification
+    of G, for the inputs of the property.  The theorems of this file take it as an explicit
+    hypothesis; it is PROVED in `Pw/T8` and discharged in `Pw/C19/Sigma.lean` (`C19.forreMooij`). -/
 def ForreMooij : Prop :=
   ∀ (G A : MG), Dom G → G.un = [] → IsAcyclification G A →
     ∀ X Y Z : List Nat, (∀ x ∈ X, x ∈ G.nodes) → (∀ y ∈ Y, y ∈ G.nodes) → (∀ z ∈ Z, z ∈ G.nodes) →
